@@ -1030,6 +1030,55 @@ fn c13_late_send_races_drain() {
     core::mem::forget(w);
 }
 
+/// the late writer without a gate (placement is fixed per harness by `vs::set_fire_at`)
+fn late_send(_site: u32) {
+    unsafe {
+        match (&*G_CACHE).command_executor.send(crate::cache::command::CommandType::Delete(103)) {
+            Ok(a) => { G_LATE = Some(core::mem::ManuallyDrop::new(a)); }
+            Err(_) => { G_LATE_ERR = true; }
+        }
+    }
+}
+/// C13/C12 / P4, per-placement family: the queue holds [Shutdown, Delete(101)]; a writer that already passed the
+/// shutdown gate sends Delete(103) at exactly the k-th dequeue operation of the worker (k = 1: before Shutdown is
+/// taken, 2: at the first dequeue of the drain, 3: when the drain finds the queue empty - the worker has three dequeue
+/// operations in this run; the cover `the late send was accepted` is pooled over the family).
+/// Whatever k: Shutdown is Accepted, the command behind it is answered ShuttingDown, and the late send either fails
+/// or its acknowledgement is resolved by the time the worker has nothing left to do - never pending.
+fn late_send_at_dequeue(k: u32) {
+    mk_empty_world!(w, 4, 1000);
+    any_now();
+    let c = &w.cache;
+    unsafe { G_CACHE = c as *const CacheD<u64, u64>; G_LATE = None; G_LATE_ERR = false; }
+    let sd = hold(c.command_executor.shutdown());
+    let behind = hold(c.command_executor.send(crate::cache::command::CommandType::Delete(101)));
+    vs::set_hook(late_send, 1);
+    vs::set_hook_sites(1 << vs::S_Q_RECV);
+    vs::set_fire_at(k);
+    cek::vk_run_worker(w.worker);
+    vs::clear_hook();
+    // (whether a k-th dequeue exists is a property of this run, not of C13: vacuity is guarded by the pooled cover below)
+    assert!(status_of(&sd) == Poll::Ready(CommandStatus::Accepted) && status_of(&behind) == Poll::Ready(CommandStatus::ShuttingDown), "C13: Shutdown acknowledged, the command behind it answered ShuttingDown");
+    if let Some(a) = unsafe { G_LATE.as_ref() } {
+        assert!(status_of(a) != Poll::Pending, "C13: every acknowledgement handed out during shutdown completes (real outcome or ShuttingDown) - no caller waits forever");
+        assert!(status_of(a) == Poll::Ready(CommandStatus::ShuttingDown), "C13: a command that reaches the queue after Shutdown is not executed");
+    }
+    assert!(cek::vk_queue_len(&c.command_executor) == 0, "C13: nothing is left queued when the worker has nothing left to do");
+    kani::cover!(unsafe { G_LATE.is_some() }, "the late send was accepted by the queue");
+    kani::cover!(unsafe { G_LATE_ERR }, "opt: the late send failed (receiver already gone)");
+    vs::edge_covers();
+    core::mem::forget(w);
+}
+#[kani::proof]
+#[kani::unwind(7)]
+fn c13_late_send_at_dequeue_1() { late_send_at_dequeue(1); }
+#[kani::proof]
+#[kani::unwind(7)]
+fn c13_late_send_at_dequeue_2() { late_send_at_dequeue(2); }
+#[kani::proof]
+#[kani::unwind(7)]
+fn c13_late_send_at_dequeue_3() { late_send_at_dequeue(3); }
+
 // =========================================================================================== C10 end to end
 /// C10/C05/C16 / P2: one tick of the REAL sweeper with the REAL evict hook (weights by id, then store by key)
 /// on a whole CacheD at a solver-chosen instant: a held TTL key whose expiry has passed and whose shard is due
